@@ -53,6 +53,10 @@ var catalogue = []pipe{
 	{name: "movingAverage", script: `|movingAverage('x', 2)`},
 	{name: "elapsed", script: `|elapsed('x', 1s)`},
 	{name: "last", script: `|window().period(2s).every(2s)|last('x')`},
+	// windows that are regularly EMPTY (period < every): aggregates defined on empty input emit for them
+	{name: "sparseWindowSum", script: `|window().period(1s).every(2s)|sum('x')`},
+	{name: "sparseWindowCount", script: `|window().period(1s).every(2s)|count('x')`},
+	{name: "sparseWindowSumAlign", script: `|window().period(1s).every(3s).align()|sum('x').as('s')|eval(lambda: "s" * 2).as('d').keep()`},
 	{name: "alertSCO", script: `|alert().id('{{ .Group }}').crit(lambda: "x" > 2).warn(lambda: "x" > 1).stateChangesOnly().topic('%T').levelField('l')`, alert: true},
 	{name: "alertNestedCount", script: `|alert().id('{{ .Group }}').crit(lambda: float(count()) > 2.0).topic('%T').levelField('l')`, alert: true},
 	{name: "alertCount", script: `|alert().id('{{ .Group }}').crit(lambda: count() > 2).topic('%T').levelField('l')`, alert: true},
@@ -81,10 +85,11 @@ func number(prog [2][]in) [2][]in {
 type grouping struct {
 	alt    []map[string]string // extra tags of group 1 that alternate per point (the "group" is then several groups of one series)
 	name   string
-	clause string              // groupBy clause appended to from()
+	clause string               // groupBy clause appended to from()
 	tags   [2]map[string]string // the two groups' tags
 	meas   [2]string
 	extra  bool // add a non-grouped tag that varies: must not split the group
+	flt1   bool // the second series carries field x as a float (the first as an integer): field kinds differ between groups
 }
 
 var groupings = []grouping{
@@ -98,6 +103,7 @@ var groupings = []grouping{
 	{name: "twoDims", clause: `.groupBy('a', 'b')`, tags: [2]map[string]string{{"a": "x", "b": "1"}, {"a": "y", "b": "1"}}, meas: [2]string{"m", "m"}},
 	{name: "starExclude", clause: `|groupBy(*).exclude('c', 'who', 'z')`, tags: [2]map[string]string{{"a": "x", "c": "1"}, {"a": "x"}}, meas: [2]string{"m", "m"},
 		alt: []map[string]string{{"p": "1"}, {"p": "2"}}},
+	{name: "mixedKinds", clause: `.groupBy('a')`, tags: [2]map[string]string{{"a": "g"}, {"a": "h"}}, meas: [2]string{"m", "m"}, flt1: true},
 	{name: "byMeasurement", clause: `.groupBy('a').groupByMeasurement()`, tags: [2]map[string]string{{"a": "g"}, {"a": "g"}}, meas: [2]string{"m", "n"}},
 }
 
@@ -116,7 +122,11 @@ func mkPoint(g grouping, p in, k int) imodels.Point {
 	}
 	// attribution tag: which of the two input series a point belongs to (never rewritten by the pipelines)
 	tags["who"] = fmt.Sprintf("s%d", p.grp)
-	return rt.MustPoint(g.meas[p.grp], tags, map[string]any{"x": int64(p.x), "k": int64(k)}, rt.DefaultTime.T(p.t))
+	var x any = int64(p.x)
+	if g.flt1 && p.grp == 1 {
+		x = float64(p.x) + 0.5
+	}
+	return rt.MustPoint(g.meas[p.grp], tags, map[string]any{"x": x, "k": int64(k)}, rt.DefaultTime.T(p.t))
 }
 
 // runOnce executes the pipeline on the given inputs and returns, per group index, the encoded outputs.
@@ -356,6 +366,9 @@ func Run(r *rt.Run) error {
 		return err
 	}
 	if err := runBatches(r, env, t); err != nil {
+		return err
+	}
+	if err := runHTTPOut(r, env, t); err != nil {
 		return err
 	}
 	names := []string{}
